@@ -670,6 +670,7 @@ func (c *wsConn) setToken(token json.RawMessage, tid string) {
 	for _, sub := range c.subs {
 		sub.reaccess(nil)
 	}
+	verifNote("tokenDone", "cid", c.cid)
 }
 
 func (c *wsConn) Access(s *Subscription, cb func(*rescache.Access)) {
